@@ -21,6 +21,7 @@ LEVEL_TEXT = (
     "through `with`, explicit acquire/release and Condition aliases; rules: deque accessed only under the lock, every acquire "
     "released on every path, untimed wait only in a predicate loop whose predicate the notifiers write, writers notify under the "
     "lock, no sleep while holding the lock, head re-validated by identity after re-acquiring, closed => None, append/popleft only."
+    " Also the structural part of 'never before its delay': after the last blocking operation on the path to popleft a comparison establishes insert time + delay_sec - now <= 0 (linear form), with now read after that operation from the clock put() stamps with."
 )
 
 CLS = "DelayedQueue"
